@@ -269,7 +269,7 @@ pub fn exhaustive(ctx: &mut Ctx) {
 /// n = 5..8 random source orders / requests / live sets
 pub fn random(ctx: &mut Ctx) {
     let mut rng = ctx.rng(0xC08_2);
-    let cases = ctx.by_tier(40, 300);
+    let cases = ctx.by_tier(40, 1500);
     let kinds: Vec<usize> = ctx.param.as_deref().map(|p| p.chars().map(|c| c.to_digit(10).unwrap() as usize).collect()).unwrap_or(vec![0, 1, 2]);
     let perms: Vec<Vec<Vec<u32>>> = (0..=7).map(all_perms).collect();
     for i in 0..cases {
